@@ -2470,6 +2470,55 @@ func (c *Ctx) r0930(pk *packages.Package) {
 		}
 	}
 	c.R.Floor(rule, "prints of a group's content without parentheses", n, 1)
+	// (b) the head of a for-of whose `var` was hoisted away: the declaration is printed without its keyword, the bare identifier
+	// is what the head starts with (`var async;for(var async of x);` → `for(async of x);`)
+	if sfd := c.fn(rule, pk, "jsMinifier.minifyStmt"); sfd != nil {
+		sg := c.graph(pk, sfd)
+		shead := caseHead(sg, "*js.ForOfStmt")
+		if shead == nil {
+			c.R.Unres(rule, "js.jsMinifier.minifyStmt/case *js.ForOfStmt", c.pos(sfd), "case not found")
+			return
+		}
+		sasks := func(q *flow.Node) bool {
+			if q.Kind != flow.KCond {
+				return false
+			}
+			var whole ast.Node = q.Expr
+			for x := c.P.Parent(q.Expr); x != nil; x = c.P.Parent(x) {
+				if ifs, ok := x.(*ast.IfStmt); ok {
+					if ifs.Cond.Pos() <= q.Expr.Pos() && q.Expr.End() <= ifs.Cond.End() {
+						whole = ifs.Cond
+					}
+					break
+				}
+				if _, ok := x.(ast.Stmt); ok {
+					break
+				}
+			}
+			_, strs, _ := c.constsIn(pk, whole)
+			for _, id := range ref.JSLookaheadIdents {
+				if !strs[id] {
+					return false
+				}
+			}
+			return true
+		}
+		k := 0
+		for _, y := range sg.Nodes {
+			a := y.Ast()
+			if a == nil || y.Kind != flow.KStmt || c.caseLabel(a) != "case *js.ForOfStmt" {
+				continue
+			}
+			for _, call := range findCalls(info, a, false, load.Mod+"/js.(jsMinifier).minifyVarDecl") {
+				k++
+				y := y
+				p := sg.Path(flow.Search{From: []*flow.Node{shead}, Goal: func(q *flow.Node) bool { return q == y }, Avoid: sasks})
+				c.R.Check(p == nil, rule, fmt.Sprintf("js.jsMinifier.minifyStmt/case *js.ForOfStmt/declaration printed#%d only after a look at the identifiers let and async", k), c.pos(call), "every path from the head of the case to the print passes a test that mentions "+strings.Join(ref.JSLookaheadIdents, " and "),
+					"the declaration of a for-of head is printed without a look at its identifier: when its `var` was hoisted away the head starts with the bare name — `var async;for(var async of x);` → `for(async of x);` (SyntaxError), `var let;for(var let of x);` → `for(let of x);`: "+pathStr(c, sg, p))
+			}
+		}
+		c.R.Floor(rule, "declarations printed in a for-of head", k, 1)
+	}
 }
 
 // R04.33: the cases of a unit conversion agree on its direction and use the factors of the units.
